@@ -3,7 +3,7 @@ SPECIFICATION Spec
 CONSTANTS
   Rids = {1, 2}
   MaxItems = 2
-  Outcomes = {"success", "successSetsId", "plainError"}
+  Outcomes = {"success", "successSetsId", "successClearsId", "plainError"}
   Options = {"unset", "Stop"}
 INVARIANTS TypeOK OnePerItemInOrder AtMostOnceInOrder StopSemantics ContinueSemantics RejectWhole EmptyAtStart ReadsSeeOwnRequest
 CHECK_DEADLOCK FALSE
